@@ -42,21 +42,56 @@ def gen_connect(rng, base, other, allow_repeated_other=False):
 
 
 def wrapper_step(rng, base, other):
-    """the five wrappers expressed through their documented defaults"""
-    w = rng.choice(['connect_left', 'connect_right', 'connect_inputs', 'extend', 'add'])
+    """the five wrappers, called as a user calls them (step kind 'wrap'); defaults are left to the wrapper"""
+    w = rng.choice(['connect_left', 'connect_right', 'connect_inputs', 'extend', 'extend', 'add'])
     name = rng.choice(['', 'W'])
+    addp = rng.random() < 0.8
     blabels = [g[0] for g in base['gates']]
+    olabels = [g[0] for g in other['gates']]
     if w == 'connect_left':
-        return ['connect', other, [rng.choice(blabels) for _ in other['inputs']], list(other['inputs']), False, name, True]
-    if w == 'add':
-        return ['connect', other, [], [], False, name, True]
-    if w == 'extend' and len(base['outputs']) == len(other['inputs']) and len(set(other['inputs'])) == len(other['inputs']):
-        return ['connect', other, list(base['outputs']), list(other['inputs']), False, name, True]
-    if w == 'connect_inputs' and len(base['inputs']) == len(other['inputs']):
-        return ['connect', other, list(base['inputs']), list(other['inputs']), True, name, True]
-    k = min(len(base['inputs']), len(other['gates']))
-    ol = [g[0] for g in other['gates']]
-    return ['connect', other, list(base['inputs'])[:k], rng.sample(ol, k), True, name, True]
+        return ['wrap', w, other, [rng.choice(blabels) for _ in other['inputs']], None, False, name, addp]
+    if w == 'connect_right' and len(olabels) >= len(base['inputs']):
+        return ['wrap', w, other, None, rng.sample(olabels, len(base['inputs'])), True, name, addp]
+    if w == 'connect_inputs':
+        return ['wrap', w, other, None, None, True, name, addp]
+    if w == 'extend':
+        right = rng.random() < 0.3
+        if right and len(set(other['outputs'])) != len(other['outputs']):
+            right = False            # the documented composition is stated for distinct right connectors (ASSUMPTIONS)
+        kind = rng.choice(['defaults', 'defaults', 'empty', 'explicit', 'half'])
+        if kind == 'defaults':
+            return ['wrap', w, other, None, None, right, name, addp]
+        if kind == 'empty':          # explicit empty connector lists: side by side
+            return ['wrap', w, other, [], [], right, name, addp]
+        if kind == 'half':           # one default, one explicit
+            if right:
+                return ['wrap', w, other, None, rng.sample(olabels, min(len(olabels), len(base['inputs']))), right, name, addp]
+            return ['wrap', w, other, [rng.choice(blabels) for _ in other['inputs']], None, right, name, addp]
+        if right:
+            k = rng.randint(0, min(len(base['inputs']), len(olabels)))
+            return ['wrap', w, other, rng.sample(base['inputs'], k), rng.sample(olabels, k), right, name, addp]
+        k = rng.randint(0, len(other['inputs']))
+        oc = rng.sample(other['inputs'], k)
+        return ['wrap', w, other, [rng.choice(blabels) for _ in oc], oc, right, name, addp]
+    return ['wrap', 'add', other, None, None, False, name, addp]
+
+
+def documented(base, st):
+    """the `connect_circuit` call a step stands for, by the wrappers' documentation"""
+    if st[0] == 'connect':
+        return st
+    _, which, other, thisc, otherc, right, name, addp = st
+    if which == 'connect_left':
+        return ['connect', other, list(thisc), list(other['inputs']), False, name, addp]
+    if which == 'connect_right':
+        return ['connect', other, list(base['inputs']), list(otherc), True, name, addp]
+    if which == 'connect_inputs':
+        return ['connect', other, list(base['inputs']), list(other['inputs']), True, name, addp]
+    if which == 'extend':
+        t = list(thisc) if thisc is not None else list(base['inputs'] if right else base['outputs'])
+        o = list(otherc) if otherc is not None else list(other['outputs'] if right else other['inputs'])
+        return ['connect', other, t, o, right, name, addp]
+    return ['connect', other, [], [], False, name, addp]
 
 
 def correspondence(ctx):
@@ -114,20 +149,23 @@ def search(ctx):
     wf_states, wf_origin = [], []
     for k in range(ctx.scale(300, 8000)):
         base, other = gen_pair(ctx, rng)
-        st = gen_connect(rng, base, other) if rng.random() < 0.75 else wrapper_step(rng, base, other)
+        st_run = gen_connect(rng, base, other) if rng.random() < 0.7 else wrapper_step(rng, base, other)
+        st = documented(base, st_run)
         other = st[1]
         _, _, thisc, otherc, right, name, addp = st
+        if st_run[0] == 'wrap':
+            ctx.count('wrapper:' + st_run[1])
         nontriv = any(g[1] != 'INPUT' for g in base['gates']) and any(g[1] != 'INPUT' for g in other['gates'])
         ctx.case(json.dumps(['s', base['gates'], st]), nontriv)
-        r = py_mutate({'c': base, 'steps': [st]})['ok'][0]
+        r = py_mutate({'c': base, 'steps': [st_run]})['ok'][0]
         pre = name + '@' if (name != '' and addp) else ''
         clash = bool({g[0] for g in base['gates']} & {pre + g[0] for g in other['gates'] if g[0] not in otherc})
         if 'err' in r:
             ctx.count('connect:' + r['err'])
             if r['err'] == 'Py:AssertionError':
-                ctx.violation('connect.modifies_other', 'attached circuit was modified', input={'base': base, 'step': st})
+                ctx.violation('connect.modifies_other', 'attached circuit was modified', input={'base': base, 'step': st_run})
             elif not clash and r['err'] not in ('CircuitValidationError', 'CreateBlockError'):
-                ctx.violation('connect.raises', f'connect_circuit raised {r["err"]}', input={'base': base, 'step': st})
+                ctx.violation('connect.raises', f'connect_circuit raised {r["err"]}', input={'base': base, 'step': st_run})
             continue
         ctx.count('connect:ok:' + ('right' if right else 'left'))
         # interface
@@ -137,9 +175,9 @@ def search(ctx):
         exp_out = [o for o in base['outputs'] if o not in thisc] + [pre + o for o in other['outputs'] if o not in otherc]
         if r['inputs'] != exp_in or r['outputs'] != exp_out:
             ctx.violation('connect.interface', f'inputs/outputs {r["inputs"]}/{r["outputs"]}, documented {exp_in}/{exp_out}',
-                          input={'base': base, 'step': st})
+                          input={'base': base, 'step': st_run})
             continue
-        wf_states.append(r); wf_origin.append((base, st))
+        wf_states.append(r); wf_origin.append((base, st_run))
         if len(exp_in) <= 6:
             for bits in itertools.product('FT', repeat=len(exp_in)):
                 bf = dict(zip(exp_in, bits))
@@ -149,7 +187,7 @@ def search(ctx):
                     break
                 if got != {'ok': want}:
                     ctx.violation('connect.function', f'composition evaluates to {got}, documented composition gives {want}',
-                                  input={'base': base, 'step': st, 'assignment': list(bits)})
+                                  input={'base': base, 'step': st_run, 'assignment': list(bits)})
                     break
         # block extraction gives back the attached circuit's function
         if name != '' and len(set(thisc)) == len(thisc):
@@ -161,13 +199,13 @@ def search(ctx):
                     t2 = py_exec({'op': 'truth_table', 'c': ex})
                     if 'ok' in t1 and t1 != t2 and not right:
                         ctx.violation('connect.block_extraction', f'extracted block computes {t2}, attached circuit {t1}',
-                                      input={'base': base, 'step': st})
+                                      input={'base': base, 'step': st_run})
             except Exception as e:  # noqa: BLE001
                 if not right:
-                    ctx.violation('connect.block_extraction_raises', f'Block.into_circuit raised {err_name(e)}', input={'base': base, 'step': st})
+                    ctx.violation('connect.block_extraction_raises', f'Block.into_circuit raised {err_name(e)}', input={'base': base, 'step': st_run})
     for (base, st), verdict in zip(wf_origin, check_wf(ctx, wf_states)):
         if verdict != 'ok':
-            ctx.violation('connect.not_wellformed', f'after connect_circuit: {verdict}', input={'base': base, 'step': st})
+            ctx.violation('connect.not_wellformed', f'after connect_circuit: {verdict}', input={'base': base, 'step': st_run})
 
 
 def replay(ctx, rp):
